@@ -26,6 +26,7 @@ def main():
     ap.add_argument("--prop")
     ap.add_argument("--with-tests", action="store_true")
     ap.add_argument("--show", action="store_true")
+    ap.add_argument("--tier", default="quick", choices=["quick", "thorough"])
     a = ap.parse_args()
     from mutants import MUTANTS
     st = sh(["git", "-C", REPO, "status", "--porcelain"]).stdout.strip()
@@ -49,7 +50,7 @@ def main():
                 open(p, "w").write(s.replace(old, new))
             status = {}
             for prop in m["props"]:
-                r = sh([sys.executable, CHECK, "--property", prop],
+                r = sh([sys.executable, CHECK, "--property", prop, "--tier", a.tier],
                        env=dict(os.environ, AQV_EVIDENCE_DIR="/verif/.cache/selftest_evidence", AQV_REPLAY_DIR="/verif/.cache/selftest_replay"))
                 keys = re.findall(r"^--- \S+ (.*)$", r.stdout, re.M)
                 viol = "VIOLATION property=%s" % prop in r.stdout
